@@ -116,6 +116,28 @@ def w_wrap(ki: int, seed: int, thorough: bool) -> Part:
                             part.viol(exc_sig(f"tamper-raises-undeclared:{field}", exc), f"bit {bit} of octet {pos}: {exc!r}", {**case, "pos": pos, "bit": bit})
                             continue
                         part.viol(f"tampered-wrapper-accepted:{field}", f"bit {bit} of octet {pos} ({field}) flipped, still unwraps to {got.to_knx().hex()}", {**case, "pos": pos, "bit": bit}, rank=(len(plain), pos))
+        # ONE session object used for two sessions in a row (a reconnect: the handshake assigns a new session id and the counter
+        # restarts): what it wraps and accepts in the second session is judged against the reference for the second id
+        for plain in (frames[0], min(frames, key=len)):
+            s2 = make_session(key, 1, 0)
+            frame, _ = KNXIPFrame.from_knx(plain)
+            first = s2.encrypt_frame(frame).to_knx()
+            s2.decrypt_frame(KNXIPFrame.from_knx(ipsec.wrap(key, 1, (9).to_bytes(6, "big"), XKNX_SERIAL_NUMBER, MESSAGE_TAG_TUNNELLING, plain))[0])
+            for sid2 in (2, 0xFFFF):
+                s2.session_id = sid2
+                s2._sequence_number = 0  # noqa: SLF001
+                part.evaluations += 1
+                case2 = {"kind": "wrap", "ki": ki, "sid": sid2, "seq": 0, "frame": plain, "seed": seed, "reuse": True}
+                try:
+                    again = s2.encrypt_frame(frame).to_knx()
+                    ref2 = ipsec.wrap(key, sid2, (0).to_bytes(6, "big"), XKNX_SERIAL_NUMBER, MESSAGE_TAG_TUNNELLING, plain)
+                    if again != ref2:
+                        part.viol("wrapper-differs-from-reference:second-session-on-the-same-object", f"session id {sid2} after a session with id 1: xknx {again.hex()}, reference {ref2.hex()} (first session: {first.hex()})", case2)
+                    back = s2.decrypt_frame(KNXIPFrame.from_knx(ipsec.wrap(key, sid2, (3).to_bytes(6, "big"), XKNX_SERIAL_NUMBER, MESSAGE_TAG_TUNNELLING, plain))[0])
+                    if back.to_knx() != plain:
+                        part.viol("unwrap-changes-frame:second-session-on-the-same-object", f"{plain.hex()} -> {back.to_knx().hex()}", case2)
+                except Exception as exc:  # noqa: BLE001
+                    part.viol(exc_sig("reference-wrapper-rejected:second-session-on-the-same-object", exc), f"session id {sid2} after a session with id 1: {exc!r}", case2)
         # pairs of bit flips of one short wrapper (thorough: every pair; quick: pairs within header, session id, tag, first ciphertext octet, MAC ends)
         plain = min(frames, key=len)
         s = make_session(key, 1, 0)
